@@ -12,6 +12,7 @@ R6.depth       stage-boundary deserialisation of the recursive AST must not impo
 from .. import anchors as A
 from ..facts import walk_body, walk, loc, peel, callee_name, callee_def
 from ..census import local_of, fmt_pieces
+from ..symdbg import fmt_term
 from ..tables import simple_enum_table, literal_to_value_table, find_matches, variants_in_pat, result_of
 
 LEVEL = "other"
@@ -44,6 +45,45 @@ def call_table(fx, body):
         if out:
             return out
     return out
+
+
+def _verbatim(ck, fx):
+    """What `serialize` returns is the text the format crate produced for exactly this AST (plus, at most, trailing
+    white space), and `deserialize` returns what the crate read from exactly the text it was given: symbolic
+    execution of both functions per format; any other operation on the text (replace, trim, re-encode) may change
+    string literals inside the AST."""
+    from ..layout_scheme import run as lrun
+    for v, crate in CRATE_OF.items():
+        for role, arg, fn in (("cli.ast.serialize", "ast", "to_string"), ("cli.ast.deserialize", "source", "from_str")):
+            key = "%s %s text passes through verbatim" % (v, role.rsplit(".", 1)[1])
+            try:
+                ex, paths = lrun(fx, A.get(role), [("ctor", "ASTSerializer", v, ()), ("var", arg)], track_subs=False)
+            except Exception as e:
+                ck.ob("R6.verbatim", key, False, "", "cannot execute symbolically (unprovable): %s" % str(e)[:120])
+                continue
+            oks = [p for p in paths or [] if p["out"][0] == "val" and isinstance(p["out"][1], tuple) and p["out"][1][0] == "ok"]
+            why = None
+            if not oks:
+                why = "no successful path"
+            for p in oks:
+                calls = [e for e in p["eff"] if e["k"] == "call" and e["args"][0][1].split("::")[0] in ("serde_json", "serde_yaml", "serde_lexpr")]
+                if len(calls) != 1 or not calls[0]["args"][0][1].startswith(crate + "::") or not calls[0]["args"][0][1].endswith("::" + fn):
+                    why = "calls %s" % [c["args"][0][1] for c in calls]
+                    break
+                if calls[0]["args"][1:] != (("var", arg),):
+                    why = "the crate is handed %s, not the %s the function was given" % (fmt_term(calls[0]["args"][1])[:80] if len(calls[0]["args"]) > 1 else "nothing", arg)
+                    break
+                val = p["out"][1][1]
+                want = ("payload", calls[0]["res"])
+                if val[0] == "fmt":
+                    pieces = "".join(x[1] if x[0] == "lit" else "{}" for x in val[1])
+                    if val[2] != (want,) or pieces.replace("{}", "", 1).strip() != "" or pieces.count("{}") != 1:
+                        why = "the result is formatted as %r over %s" % (pieces, [fmt_term(a)[:60] for a in val[2]])
+                        break
+                elif val != want:
+                    why = "the result is %s, not the crate's own result" % fmt_term(val)[:160]
+                    break
+            ck.ob("R6.verbatim", key, why is None, "", "one %s::%s call; its result is returned as it is" % (crate, fn) if why is None else why + " — text inside string literals of the AST can change between stages")
 
 
 def run(ck, fx, cg, tier):
@@ -86,6 +126,7 @@ def run(ck, fx, cg, tier):
             ok = (st.get(v) or "").startswith(crate + "::to_string") and (dt.get(v) or "").startswith(crate + "::from_str")
             ck.ob("R6.tables", "%s uses %s in both directions" % (v, crate), ok, loc(sb), "writes with %s, reads with %s" % (st.get(v), dt.get(v)))
         ck.sample({"rule": "R6.tables", "serialize": st, "deserialize": dt})
+        _verbatim(ck, fx)
     eb = fx.body(A.get("cli.ast.extension"))
     fb = fx.body(A.get("cli.ast.from_extension"))
     if ck.anchor("R6.tables", "ASTSerializer::extension", eb) and ck.anchor("R6.tables", "ASTSerializer::from_extension", fb):
